@@ -24,6 +24,7 @@ type specCtx struct {
 	pkg      *types.Package
 	frame    *Frame // for local variable lookup in loop invariants (may be nil)
 	loopCtx  *LoopCtx
+	sumDepth int              // nesting depth of sumof (canonical summation variables)
 	ghost    map[string]*Term // ghost state used for reads (nil: the current state's)
 	oldGhost map[string]*Term // ghost state denoted by old(...) (nil: the entry state, i.e. the initial constants)
 	inOld    bool
@@ -238,6 +239,21 @@ func (c *specCtx) eval(x SExpr) (Val, types.Type) {
 		return scalar(tb.Int(c.e.strID(n.V))), types.Typ[types.String]
 	case *SIdent:
 		return c.ident(n.Name)
+	case *SSum:
+		nv, _ := c.eval(n.N)
+		kv := tb.SumVar(c.sumDepth)
+		sc := *c
+		sc.sumDepth = c.sumDepth + 1
+		sc.env = map[string]specBind{}
+		for k2, v2 := range c.env {
+			sc.env[k2] = v2
+		}
+		sc.env[n.Var] = specBind{scalar(kv), types.Typ[types.Int]}
+		bv, _ := sc.eval(n.Body)
+		if len(bv.T) != 1 || bv.T[0].Sort != SInt {
+			c.fail("sumof: the summand must be an integer expression")
+		}
+		return scalar(tb.Psum(tb.SumArr(kv, bv.T[0]), nv.T[0])), untypedInt
 	case *SOld:
 		oc := *c
 		oc.heap = c.oldHeap
@@ -485,6 +501,32 @@ func (c *specCtx) ident(name string) (Val, types.Type) {
 		return c.e.flatten(c.st, b.T, b.V), b.T
 	}
 	if strings.HasPrefix(name, "$") && c.frame != nil {
+		// $iN : loop N of this function: completed iterations when N is the loop the invariant belongs to, else (an enclosing
+		// loop, whose iteration is in progress) the index of the iteration in progress
+		if len(name) > 2 && strings.HasPrefix(name, "$i") {
+			var n int
+			if _, err := fmt.Sscanf(name[2:], "%d", &n); err == nil && n > 0 {
+				for _, lc := range c.frame.Active {
+					if lc == nil || lc.Ord != n || lc.Info == nil {
+						continue
+					}
+					for _, in := range lc.Info.Header.Instrs {
+						if ld, ok := in.(*ssa.UnOp); ok {
+							if al, ok := ld.X.(*ssa.Alloc); ok && (al.Comment == "rangeindex" || al.Comment == "rangeint.iter") {
+								if id, ok := c.frame.Cells[al]; ok {
+									cur := c.st.Cells[id].V.T[0]
+									if al.Comment == "rangeindex" && c.loopCtx != nil && c.loopCtx.Ord == n {
+										return scalar(tb.Add(cur, tb.Int(1))), untypedInt
+									}
+									return scalar(cur), untypedInt
+								}
+							}
+						}
+					}
+				}
+				c.fail("%s: loop %d is not active here", name, n)
+			}
+		}
 		// $i : completed iterations of the innermost range loop = rangeindex + 1
 		if name == "$i" {
 			if c.loopCtx != nil && c.loopCtx.Info != nil {
